@@ -388,7 +388,8 @@ func (p *pep440Extension) parseLocal(input string) (string, error) {
 		return input, fmt.Errorf("invalid local version identifier in `%s`", p.version.str)
 	}
 	p.makeExt()
-	str := input[1:]
+	// Local segments compare case-insensitively; the canonical form is lower case.
+	str := strings.ToLower(input[1:])
 	// In local only, - and _ are permitted but are not canonical.
 	if strings.Contains(str, "-") {
 		str = strings.ReplaceAll(str, "-", ".")
